@@ -242,7 +242,7 @@ pub fn client_cases(ctx: &Arc<SimCtx>, seq: &[WirePdu], counters: &mut Counters,
         let end = reply.starts.get(i + 1).copied().unwrap_or(len);
         for (cname, c) in crate::c07::corruptions(&reply.bytes[*s..end]) {
             let ann = u32::from_be_bytes([c[4], c[5], c[6], c[7]]);
-            if ann > (1 << 24) && !ctx.chance(1, 32) {
+            if ann > (1 << 24) && (!ctx.chance(1, 32) || !crate::c07::huge_alloc_granted()) {
                 continue;
             }
             let mut stream = reply.bytes[..*s].to_vec();
